@@ -1,5 +1,225 @@
-//! Seeded random input generators (direction B).
-use serde_json::Value;
-pub fn generate(_group: &str, _seed: u64, _n: usize) -> Vec<Value> {
-    Vec::new()
+//! Seeded random input generators (direction B): larger inputs and longer histories than TLC enumerates.
+//! They only produce INPUT events; the same executor as for TLC-generated vectors runs them and the same
+//! TLA+ judge decides them.  All numbers stay in the exact domain (small dyadics) described in DESIGN.md.
+use crate::num::Rng;
+use serde_json::{json, Value};
+
+pub fn q(p: i64, den: i64) -> Value {
+    // normalised [p,q], den a power of two
+    let (mut p, mut d) = (p, den);
+    while d > 1 && p % 2 == 0 {
+        p /= 2;
+        d /= 2;
+    }
+    json!([p, d])
+}
+pub struct FnGen {
+    pub ids: Vec<u64>,
+    pub coef_den: i64,
+    pub coef_max: i64,
+    pub max_terms: u64,
+    pub max_deg: u64,
+}
+impl FnGen {
+    pub fn coef(&self, r: &mut Rng) -> Value {
+        if r.chance(1, 8) {
+            return json!([0, 1]);
+        }
+        q(r.range(-self.coef_max, self.coef_max), self.coef_den)
+    }
+    pub fn id(&self, r: &mut Rng) -> u64 {
+        *r.pick(&self.ids)
+    }
+    pub fn linear(&self, r: &mut Rng) -> Value {
+        let n = r.below(self.max_terms + 1);
+        let terms: Vec<Value> = (0..n).map(|_| json!({"id": self.id(r), "c": self.coef(r)})).collect();
+        json!({"kind":"linear","terms":terms,"constant":self.coef(r)})
+    }
+    pub fn quadratic(&self, r: &mut Rng, nodup: bool) -> Value {
+        let n = r.below(self.max_terms.min(6) + 1);
+        let mut rows = vec![];
+        let mut cols = vec![];
+        let mut vals = vec![];
+        let mut seen = std::collections::HashSet::new();
+        for _ in 0..n {
+            let (a, b) = (self.id(r), self.id(r));
+            if nodup && !seen.insert((a, b)) {
+                continue;
+            }
+            rows.push(a);
+            cols.push(b);
+            vals.push(self.coef(r));
+        }
+        let lin = if r.chance(1, 3) { json!([]) } else { json!([self.linear(r)]) };
+        json!({"kind":"quadratic","rows":rows,"columns":cols,"values":vals,"linear":lin})
+    }
+    pub fn polynomial(&self, r: &mut Rng) -> Value {
+        let n = r.below(self.max_terms + 1);
+        let terms: Vec<Value> = (0..n)
+            .map(|_| {
+                let len = r.below(self.max_deg + 1);
+                let ids: Vec<u64> = (0..len).map(|_| self.id(r)).collect();
+                json!({"ids": ids, "c": self.coef(r)})
+            })
+            .collect();
+        json!({"kind":"polynomial","terms":terms})
+    }
+    /// any wire-legal function message with degree <= max_deg
+    pub fn function(&self, r: &mut Rng, allow_none: bool) -> Value {
+        let k = r.below(if allow_none { 17 } else { 16 });
+        match k {
+            0 | 1 => json!({"kind":"constant","c":self.coef(r)}),
+            2..=5 => self.linear(r),
+            6..=10 if self.max_deg >= 2 => self.quadratic(r, false),
+            6..=10 => self.linear(r),
+            11..=15 if self.max_deg >= 2 => self.polynomial(r),
+            11..=15 => self.linear(r),
+            _ => json!({"kind":"none"}),
+        }
+    }
+    pub fn state_over(&self, r: &mut Rng, ids: &[u64], den: i64, max: i64) -> Value {
+        Value::Array(ids.iter().map(|i| json!([i, q(r.range(-max, max), den)])).collect())
+    }
+}
+fn ev(name: &str, case: String, inp: Value) -> Value {
+    json!({"ev": name, "case": case, "src": "drive", "in": inp})
+}
+
+pub fn generate(group: &str, seed: u64, n: usize) -> Vec<Value> {
+    let mut r = Rng::new(seed ^ group.bytes().fold(0u64, |a, b| a.wrapping_mul(131).wrapping_add(b as u64)));
+    let mut out = Vec::new();
+    let g = FnGen { ids: vec![1, 2, 3, 5, 8, 13], coef_den: 4, coef_max: 8, max_terms: 8, max_deg: 4 };
+    match group {
+        "eval_fn" => {
+            for k in 0..n {
+                let f = g.function(&mut r, true);
+                let mut ids = g.ids.clone();
+                // sometimes drop one variable from the state (missing-variable failure)
+                if r.chance(1, 4) {
+                    let i = r.below(ids.len() as u64) as usize;
+                    ids.remove(i);
+                }
+                let st = g.state_over(&mut r, &ids, 2, 4);
+                let via = if r.chance(1, 2) { "function" } else { "typed" };
+                out.push(ev("eval_fn", format!("d-eval-{k}"), json!({"f": f, "st": st, "via": via})));
+            }
+        }
+        "partial_fn" => {
+            for k in 0..n {
+                let f = g.function(&mut r, true);
+                let mut ids = g.ids.clone();
+                ids.push(21); // an id that never occurs
+                r.shuffle(&mut ids);
+                let cut = r.below(ids.len() as u64 + 1) as usize;
+                let st = g.state_over(&mut r, &ids[..cut], 2, 4);
+                let via = if r.chance(1, 2) { "function" } else { "typed" };
+                out.push(ev("partial_fn", format!("d-partial-{k}"), json!({"f": f, "st": st, "via": via})));
+            }
+        }
+        "subst_fn" => {
+            let gf = FnGen { ids: vec![1, 2, 3, 5], coef_den: 2, coef_max: 4, max_terms: 5, max_deg: 3 };
+            let gr = FnGen { ids: vec![1, 2, 3, 5, 8], coef_den: 2, coef_max: 4, max_terms: 2, max_deg: 2 };
+            for k in 0..n {
+                let f = gf.function(&mut r, true);
+                let mut ids = gf.ids.clone();
+                r.shuffle(&mut ids);
+                let m = 1 + r.below(4) as usize;
+                let repl: Vec<Value> = ids[..m]
+                    .iter()
+                    .map(|i| {
+                        let mut h = gr.function(&mut r, false);
+                        if h["kind"] == "quadratic" {
+                            h = gr.quadratic(&mut r, true); // schema: no duplicated (row, column) positions
+                        }
+                        json!([i, h])
+                    })
+                    .collect();
+                out.push(ev("subst_fn", format!("d-subst-{k}"), json!({"f": f, "repl": repl})));
+            }
+        }
+        "arith" => {
+            let combos: Vec<(String, String, String)> =
+                serde_json::from_str::<Vec<Vec<String>>>(include_str!("../../tools/arith_defined.json"))
+                    .unwrap()
+                    .into_iter()
+                    .map(|c| (c[0].clone(), c[1].clone(), c[2].clone()))
+                    .collect();
+            let g2 = FnGen { ids: vec![1, 2, 3, 5, 8, 13], coef_den: 4, coef_max: 8, max_terms: 8, max_deg: 2 };
+            let operand = |r: &mut Rng, k: &str| -> Value {
+                let none = json!({"kind":"none"});
+                match k {
+                    "num" => json!({"k":"num","c":g2.coef(r),"id":0,"f":none}),
+                    "dv" => json!({"k":"dv","c":[0,1],"id":g2.id(r),"f":none}),
+                    "param" => json!({"k":"param","c":[0,1],"id":g2.id(r),"f":none}),
+                    "lin" => json!({"k":"lin","c":[0,1],"id":0,"f":g2.linear(r)}),
+                    "quad" => json!({"k":"quad","c":[0,1],"id":0,"f":g2.quadratic(r, true)}),
+                    "poly" => json!({"k":"poly","c":[0,1],"id":0,"f":g2.polynomial(r)}),
+                    _ => {
+                        let mut f = g2.function(r, false);
+                        if f["kind"] == "quadratic" {
+                            f = g2.quadratic(r, true);
+                        }
+                        json!({"k":"func","c":[0,1],"id":0,"f":f})
+                    }
+                }
+            };
+            for k in 0..n {
+                if r.chance(1, 12) {
+                    let kinds = ["num", "dv", "param", "lin", "quad", "poly", "func"];
+                    let kk = *r.pick(&kinds);
+                    let a = operand(&mut r, kk);
+                    let b = operand(&mut r, "num");
+                    out.push(ev("arith", format!("d-arith-{k}"), json!({"op":"neg","a":a,"b":b})));
+                    continue;
+                }
+                let c = combos[r.below(combos.len() as u64) as usize].clone();
+                let a = operand(&mut r, &c.1);
+                let b = operand(&mut r, &c.2);
+                out.push(ev("arith", format!("d-arith-{k}"), json!({"op":c.0,"a":a,"b":b})));
+            }
+        }
+        "eval_bound" => {
+            let gb = FnGen { ids: vec![1, 2, 3], coef_den: 2, coef_max: 6, max_terms: 4, max_deg: 4 };
+            let ends: Vec<Value> = vec![json!([-1, 0]), json!([-3, 1]), json!([-1, 1]), json!([-1, 2]), json!([0, 1]), json!([1, 2]), json!([1, 1]), json!([2, 1]), json!([5, 2]), json!([1, 0])];
+            for k in 0..n {
+                let f = gb.function(&mut r, true);
+                let mut bx = vec![];
+                for id in &gb.ids {
+                    if r.chance(1, 8) {
+                        continue; // unbounded by omission
+                    }
+                    let i = r.below(ends.len() as u64) as usize;
+                    let j = i + r.below((ends.len() - i) as u64) as usize;
+                    if i == ends.len() - 1 || j == 0 {
+                        continue; // lo = +inf or hi = -inf would be invalid
+                    }
+                    bx.push(json!([id, {"lo": ends[i], "hi": ends[j]}]));
+                }
+                out.push(ev("eval_bound", format!("d-evalbound-{k}"), json!({"f": f, "box": bx})));
+            }
+        }
+        "content_factor" => {
+            let dens = [1i64, 2, 3, 4, 5, 6, 7, 8, 9, 10, 12, 15, 20, 24, 30, 36, 45, 60];
+            fn gcd(a: i64, b: i64) -> i64 { if b == 0 { a.abs() } else { gcd(b, a % b) } }
+            for k in 0..n {
+                let nt = 1 + r.below(4);
+                let mut terms = vec![];
+                for i in 0..nt {
+                    let d = *r.pick(&dens);
+                    let p = r.range(-12, 12);
+                    let g = gcd(p, d).max(1);
+                    terms.push(json!({"id": i + 1, "c": [p / g, d / g]}));
+                }
+                let d = *r.pick(&dens);
+                let p = r.range(-6, 6);
+                let g = gcd(p, d).max(1);
+                out.push(ev("content_factor", format!("d-content-{k}"),
+                    json!({"f": {"kind":"linear","terms":terms,"constant":[p / g, d / g]}})));
+            }
+        }
+        other => {
+            out.extend(crate::gen_inst::generate(other, &mut r, n));
+        }
+    }
+    out
 }
